@@ -270,3 +270,80 @@ Theorem case_conv_correct : forall conv all arg a elems,
   pat_atoms arg = PatOk a ->
   case_conv_elems conv all arg elems = Some (map (bash_case conv all (match_char a)) elems).
 Proof. intros. unfold case_conv_elems. rewrite H. reflexivity. Qed.
+
+(* ------------------------------------------------------------------ ${v/%p/w} and ${v/#p/w}, ${v/p/w} *)
+
+(* ${v/%p/w}: the longest suffix matching p is replaced by w; unchanged if no suffix matches *)
+Theorem replace_anchored_end_correct : forall a w s,
+  let r := replace_anchored a w s true in
+  (exists pre suf, s = pre ++ suf /\ pmatch (toks a) suf /\ r = pre ++ w /\
+     forall pre' suf', s = pre' ++ suf' -> pmatch (toks a) suf' -> (length suf' <= length suf)%nat)
+  \/ (r = s /\ forall pre suf, s = pre ++ suf -> ~ pmatch (toks a) suf).
+Proof.
+  intros a w s. unfold replace_anchored. cbv zeta.
+  set (grp := fun s1 : str => rx_match false a (at_end (length s1)) s1).
+  change (match star_lazy grp s with Some n1 => firstn (length s - n1) s ++ w | None => s end) with
+         (match star_lazy grp s with Some n1 => firstn (length s - n1) s ++ w | None => s end).
+  assert (Hgrp_some : forall s1 n, grp s1 = Some n -> n = length s1 /\ pmatch (toks a) s1).
+  { intros s1 n H. apply (proj1 (rx_match_at_end _ false a (length s1) s1) n H). }
+  assert (Hgrp_match : forall s1, pmatch (toks a) s1 -> grp s1 = Some (length s1)).
+  { intros s1 H. apply (proj2 (rx_match_at_end _ false a (length s1) s1) H). }
+  destruct (star_lazy grp s) as [n1|] eqn:EL.
+  - destruct (star_lazy_some _ _ _ EL) as (pre & suf & Es & Hk & Hmin).
+    destruct (Hgrp_some _ _ Hk) as [-> Hm]. left. exists pre, suf. subst s. rewrite firstn_app_len.
+    repeat split; auto.
+    intros r' suf' Es' Hm'.
+    destruct (Nat.le_gt_cases (length suf') (length suf)) as [Hle|Hgt]; [exact Hle|exfalso].
+    assert (Hlen : (length r' < length pre)%nat).
+    { apply (f_equal (@length N)) in Es'. rewrite !app_length in Es'. lia. }
+    pose proof (Hmin r' suf' Es' Hlen) as Hn. rewrite (Hgrp_match _ Hm') in Hn. discriminate.
+  - right. split; [reflexivity|].
+    intros r' suf' Es' Hm'. pose proof (proj1 (star_lazy_none grp s) EL r' suf' Es') as Hn.
+    rewrite (Hgrp_match _ Hm') in Hn. discriminate.
+Qed.
+
+(* ${v/#p/w}: a prefix matching p is replaced by w (partial: not shown to be the longest) *)
+Theorem replace_anchored_begin_sound : forall a w s,
+  let r := replace_anchored a w s false in
+  (exists pre suf, s = pre ++ suf /\ pmatch (toks a) pre /\ r = w ++ suf)
+  \/ (r = s /\ forall pre suf, s = pre ++ suf -> ~ pmatch (toks a) pre).
+Proof.
+  intros a w s. unfold replace_anchored. cbv zeta.
+  destruct (rx_match false a (fun rest => Some rest) s) as [rest|] eqn:E.
+  - left. destruct (rx_match_sound _ _ _ _ _ _ E) as (pre & suf & Es & Hm & Hk). inversion Hk; subst.
+    exists pre, rest. auto.
+  - right. split; [reflexivity|]. intros pre suf Es Hm.
+    pose proof (rx_match_complete _ _ _ _ _ E pre suf Es Hm) as Hk. discriminate.
+Qed.
+
+(* ${v/p/w}: the replaced occurrence starts at the leftmost position where p matches
+   (partial: which of the matches starting there is taken is not characterised) *)
+Theorem replace_first_sound : forall a w s,
+  let r := replace_first a w s in
+  (exists pre mid post, s = pre ++ mid ++ post /\ pmatch (toks a) mid /\ r = pre ++ w ++ post /\
+     forall pre' mid' post', s = pre' ++ mid' ++ post' -> pmatch (toks a) mid' -> (length pre <= length pre')%nat)
+  \/ (r = s /\ forall pre mid post, s = pre ++ mid ++ post -> ~ pmatch (toks a) mid).
+Proof.
+  intros a w s. unfold replace_first, find_first. cbv zeta.
+  set (k := fun s1 : str => rx_match false a (fun rest : str => Some (length s1, length rest)) s1).
+  change (star_lazy (fun s1 : str => rx_match false a (fun rest : str => Some (length s1, length rest)) s1) s)
+    with (star_lazy k s).
+  destruct (star_lazy k s) as [[n1 n2]|] eqn:EL.
+  - destruct (star_lazy_some _ _ _ EL) as (pre & suf & Es & Hk & Hmin).
+    unfold k in Hk. destruct (rx_match_sound _ _ _ _ _ _ Hk) as (mid & post & E2 & Hm & Hk2).
+    inversion Hk2; subst n1 n2. left. exists pre, mid, post. subst suf. split; [exact Es|]. split; [exact Hm|]. split.
+    + subst s. f_equal.
+      * replace (length (pre ++ mid ++ post) - length (mid ++ post))%nat with (length pre)
+          by (rewrite !app_length; lia).
+        rewrite firstn_app, Nat.sub_diag, firstn_all. simpl. apply app_nil_r.
+      * f_equal. replace (length (pre ++ mid ++ post) - length post)%nat with (length (pre ++ mid))
+          by (rewrite !app_length; lia).
+        rewrite app_assoc. rewrite skipn_app, Nat.sub_diag, skipn_all. reflexivity.
+    + intros pre' mid' post' Es' Hm'.
+      destruct (Nat.le_gt_cases (length pre) (length pre')) as [Hle|Hgt]; [exact Hle|exfalso].
+      pose proof (Hmin pre' (mid' ++ post') Es' Hgt) as Hn. unfold k in Hn.
+      pose proof (rx_match_complete _ _ _ _ _ Hn mid' post' eq_refl Hm'). discriminate.
+  - right. split; [reflexivity|]. intros pre mid post Es Hm.
+    pose proof (proj1 (star_lazy_none k s) EL pre (mid ++ post) Es) as Hn. unfold k in Hn.
+    pose proof (rx_match_complete _ _ _ _ _ Hn mid post eq_refl Hm). discriminate.
+Qed.
